@@ -19,7 +19,7 @@ from spacepackets.cfdp import (
     TransactionId,
     TransmissionMode,
 )
-from spacepackets.cfdp.defs import ChecksumType
+from spacepackets.cfdp.defs import NULL_CHECKSUM_U32, ChecksumType
 from spacepackets.cfdp.pdu import (
     AbstractFileDirectiveBase,
     AckPdu,
@@ -998,8 +998,10 @@ class SourceHandler:
 
     def _checksum_calculation(self, size_to_calculate: int) -> bytes:
         assert self._put_req is not None
-        assert self._put_req.source_file is not None
         assert self._params.remote_cfg is not None
+        if self._put_req.source_file is None:
+            # Metadata-only transaction: no file data was sent, so there is nothing to checksum.
+            return NULL_CHECKSUM_U32
 
         return self.user.vfs.calculate_checksum(
             checksum_type=self._params.remote_cfg.crc_type,
